@@ -143,7 +143,7 @@ func (f *indexFetcher) GetFields() (immutable.Option[EncodedDocument], error) {
 	}
 	_, err = prefixFetcher.NextDoc()
 	if err != nil {
-		return immutable.Option[EncodedDocument]{}, err
+		return immutable.Option[EncodedDocument]{}, errors.Join(err, prefixFetcher.Close())
 	}
 	doc, err := prefixFetcher.GetFields()
 	return doc, errors.Join(err, prefixFetcher.Close())
